@@ -8,6 +8,8 @@ package c11
 import (
 	"encoding/json"
 	"fmt"
+	"os"
+	"time"
 	"strings"
 	"sync"
 	"testing"
@@ -81,7 +83,14 @@ func runB(raw json.RawMessage) *core.Violation {
 		return core.V("harness|fixture", "%v", err)
 	}
 	dirty := false
-	defer func() { fx.Release(dirty) }()
+	t0 := time.Now()
+	defer func() {
+		t1 := time.Now()
+		fx.Release(dirty)
+		if os.Getenv("VERIF_WSX_DEBUG") != "" {
+			fmt.Fprintf(os.Stderr, "TIMING b run=%v release=%v\n", t1.Sub(t0), time.Since(t1))
+		}
+	}()
 	ts := fx.TS
 	tag := fmt.Sprintf("c%d-", wsx.Nonce())
 
@@ -91,7 +100,7 @@ func runB(raw json.RawMessage) *core.Violation {
 	}
 	var clients []cl
 	login := func(user string) (*wsx.Client, []string, *core.Violation) {
-		c, err := fx.Dial("/havoc/")
+		c, err := fx.DialTLS("/havoc/")
 		if err != nil {
 			return nil, nil, core.V("harness|dial", "%v", err)
 		}
